@@ -2,12 +2,20 @@
   C15 — byte-level model of what the node does with bytes from the network.
   Core Lean only (this file is linked into the native driver).
 
-  Go code modelled (read line by line; defects kept):
+  Go code modelled (read line by line):
 
     network/p2p/peer.go      Peer.readConn, Peer.handle, Peer.unpackFrame, Msg.CheckCode
     common/crypto/aes.go     AesDecrypt, PKCS5UnPadding
     network/p2p/handshake.go readHandshakeBuf
     common/crypto/ecies      PrivateKey.Decrypt / symDecrypt (length arithmetic only)
+
+  TWO generations of the code are modelled side by side:
+  * `unpackFrameFixed`, `eciesOpenFixed`, `hsStepFixed`, `runFixed…` = THE CODE AS IT IS NOW (after
+    the /repo commits ba190d7 aes.go, 1eafa5e peer.go, 529e8a0 handshake.go, fdba898 ecies.go).
+    These are what the driver runs and what the correspondence sweep `hx c15` compares with /repo.
+  * `unpackFrame`, `eciesOpen`, `hsStep`, `run…` = the code BEFORE those commits, defects included.
+    Kept so that the refutations (and the exact guards) remain machine-checked documentation of
+    what the repairs close; a revert of a repair makes the correspondence sweep fail.
 
   Conventions
   * A connection is a `Reader σ`: `readFull n st` is `io.ReadFull(conn, make([]byte,n))`;
@@ -68,16 +76,18 @@ inductive Err where
   | unpad         -- ErrPKCS5UnPadding
   | badCode       -- ErrUnavailablePackage from handle (CheckCode)
   | ecies         -- any error of ecies Decrypt
-  | badLength     -- only produced by the repaired variants
+  | badLength     -- crypto.ErrAesCipherLength (content not made of full AES blocks)
+  | shortPlain    -- ErrUnavailablePackage from handle (unpackFrame: plaintext shorter than the code)
   deriving DecidableEq, Repr
 
 def Err.name : Err → String
   | .unavailable => "read-unavailable"
   | .overflow => "read-overflow"
   | .unpad => "unpad"
-  | .badCode => "badcode"
+  | .badCode => "handle-unavailable"      -- the same Go error value as .shortPlain
   | .ecies => "ecies"
   | .badLength => "badlength"
+  | .shortPlain => "handle-unavailable"
 
 /-! ### connections -/
 
@@ -160,7 +170,7 @@ inductive Unpacked where
 
 def codeOf (d : Bytes) : Nat := be32 (d.getD 0 0) (d.getD 1 0) (d.getD 2 0) (d.getD 3 0)
 
-/-- `Peer.unpackFrame` ∘ `crypto.AesDecrypt`, as coded. -/
+/-- `Peer.unpackFrame` ∘ `crypto.AesDecrypt` as coded BEFORE commits ba190d7 / 1eafa5e. -/
 def unpackFrame (dec : Bytes → Bytes) (content : Bytes) : Unpacked :=
   -- origData := make([]byte, len(encResult)); blockMode.CryptBlocks(origData, encResult)
   if content.length % blockSize ≠ 0 then .panic .cryptBlocks
@@ -178,7 +188,9 @@ def unpackFrame (dec : Bytes → Bytes) (content : Bytes) : Unpacked :=
         else if o.length < 4 then .panic .slicePayload   -- originData[4:]  ⇒  [4:len] with len < 4
         else .ok code (o.drop 4)
 
-/-- the repair: two length checks -/
+/-- `Peer.unpackFrame` ∘ `crypto.AesDecrypt` AS CODED NOW: AesDecrypt returns ErrAesCipherLength
+    unless 16 ∣ len (ba190d7); unpackFrame returns ErrUnavailablePackage when fewer than 4 bytes
+    are left after unpadding (1eafa5e). -/
 def unpackFrameFixed (dec : Bytes → Bytes) (content : Bytes) : Unpacked :=
   if content.length % blockSize ≠ 0 then .err .badLength
   else
@@ -186,7 +198,7 @@ def unpackFrameFixed (dec : Bytes → Bytes) (content : Bytes) : Unpacked :=
     match unpad d with
     | none => .err .unpad
     | some o =>
-      if o.length < 4 then .err .badLength
+      if o.length < 4 then .err .shortPlain
       else if o.length = 4 then .ok (codeOf o) []
       else .ok (codeOf o) (o.drop 4)
 
@@ -308,8 +320,8 @@ structure HsStep where
   alloc : Nat
   deriving DecidableEq, Repr
 
-/-- `ecies.PrivateKey.Decrypt(c, nil, nil)` for secp256k1 / AES-128-CTR / SHA-256, as coded:
-    the only length check is `len(c) < rLen + hLen + 1`. -/
+/-- `ecies.PrivateKey.Decrypt(c, nil, nil)` for secp256k1 / AES-128-CTR / SHA-256, as coded BEFORE
+    commit fdba898: the only length check is `len(c) < rLen + hLen + 1`. -/
 def eciesOpen (pointOk macOk : Bytes → Bool) (c : Bytes) : HsOut × Nat :=
   match c with
   | [] => (.err .ecies, 0)
@@ -325,7 +337,7 @@ def eciesOpen (pointOk macOk : Bytes → Bool) (c : Bytes) : HsOut × Nat :=
       if ct < blockSize then (.panic .makeslice, 0)
       else (.ok (ct - blockSize), ct - blockSize)
 
-/-- the repair: `len(c) < rLen + hLen + BlockSize` is an invalid message -/
+/-- AS CODED NOW (fdba898): `len(c) < rLen + hLen + BlockSize` is an invalid message -/
 def eciesOpenFixed (pointOk macOk : Bytes → Bool) (c : Bytes) : HsOut × Nat :=
   match c with
   | [] => (.err .ecies, 0)
@@ -338,8 +350,8 @@ def eciesOpenFixed (pointOk macOk : Bytes → Bool) (c : Bytes) : HsOut × Nat :
       let ct := c.length - eciesRLen - eciesHLen
       (.ok (ct - blockSize), ct - blockSize)
 
-/-- `readHandshakeBuf` with the length limit `lim` (the code uses `PackageMaxLen` = 1 GiB) and
-    the ECIES opener `open_`. -/
+/-- `readHandshakeBuf` with the length limit `lim` (`PackageMaxLen` = 1 GiB before commit 529e8a0,
+    `params.MaxPackageLength` since) and the ECIES opener `open_`. -/
 def hsStepWith {σ : Type} (open_ : Bytes → HsOut × Nat) (lim : Nat) (R : Reader σ) (st : σ) : HsStep :=
   -- buf := make([]byte, 2)
   match R.readFull 2 st with
@@ -361,10 +373,12 @@ def hsStepWith {σ : Type} (open_ : Bytes → HsOut × Nat) (lim : Nat) (R : Rea
             let r := open_ c
             ⟨r.1, 6 + len + r.2⟩
 
+/-- the pre-handshake reader BEFORE commits 529e8a0 / fdba898 -/
 def hsStep {σ : Type} (pointOk macOk : Bytes → Bool) (cfg : Cfg) (R : Reader σ) (st : σ) : HsStep :=
   hsStepWith (eciesOpen pointOk macOk) cfg.hsMaxLen R st
 
-/-- repaired: bounded by MaxPackageLength like every other frame, and the ECIES length check -/
+/-- the pre-handshake reader AS CODED NOW: bounded by MaxPackageLength like every other frame
+    (529e8a0), and the ECIES length check (fdba898) -/
 def hsStepFixed {σ : Type} (pointOk macOk : Bytes → Bool) (cfg : Cfg) (R : Reader σ) (st : σ) : HsStep :=
   hsStepWith (eciesOpenFixed pointOk macOk) cfg.maxLen R st
 
